@@ -168,6 +168,7 @@ def run(spec, tier, seed, replay=None):
             elif [a for a in axioms if a.split(".")[-1] not in ALLOWED_AXIOMS]:
                 problems.append({"kind": "axioms", "what": "coqchk reports axioms: " + ", ".join(axioms)})
 
+    t_proofs = time.time() - t0
     # ---- 4-5: harness + correspondence
     summ = None
     evaluated_in_coq = 0
@@ -175,8 +176,11 @@ def run(spec, tier, seed, replay=None):
     args = spec.args_quick if tier == "quick" else (spec.args_thorough or spec.args_quick)
     harness_runs = []
 
+    phase_times = {}
+
     def harness_round(args, seed, tag, hname=None, hoverlay=None, hrace=None):
         nonlocal evaluated_in_coq
+        t_h = time.time()
         ok, binp, blog = vlib.build_harness(hname or spec.harness, spec.overlay if hoverlay is None else hoverlay,
                                             race=spec.race if hrace is None else hrace)
         if not ok:
@@ -190,6 +194,8 @@ def run(spec, tier, seed, replay=None):
             return None
         if rc != 0:
             problems.append({"kind": "harness-run", "what": "harness exited %s" % rc, "log": out[-3000:]})
+        phase_times["harness:" + tag] = round(time.time() - t_h, 1)
+        t_c = time.time()
         if ok_check and s.get("case_files"):
             for f, okc, idx, clog in vlib.run_case_files(outdir, s["case_files"]):
                 if not okc:
@@ -208,6 +214,7 @@ def run(spec, tier, seed, replay=None):
                     problems.append({"kind": "correspondence",
                                      "what": "model and implementation disagree on %d case(s) of %s" % (len(idx), f),
                                      "first_cases": [m for m in mismatches if m["file"] == f][:3]})
+        phase_times["coq-cases:" + tag] = round(time.time() - t_c, 1)
         s["harness"] = hname or spec.harness
         for f in (s.get("failures") or []):
             f.setdefault("harness", hname or spec.harness)
@@ -312,6 +319,7 @@ def run(spec, tier, seed, replay=None):
         "broken_obligations": [p.get("what") for p in problems][:8],
         "gen_files": gen["files"],
         "notes": notes + (s.get("notes") or []),
+        "phase_seconds": dict(phase_times, **{"translator+proofs": round(t_proofs, 1)}),
     }
     vlib.write_evidence(pid, tier, seed, cov, spec.assumptions, time.time() - t0, violations)
     for l in lines:
